@@ -216,6 +216,19 @@ def run_case(scn, ctx):
                 prev = c
             got = h.string_digest()
             require(got == r, "streaming", lambda: "%s len %d cuts %s: %r != %r" % (f, n, scn["cuts"], got, r))
+            # two streaming hashers of one format side by side, with one-shot calls in between: each digest depends
+            # on its own bytes only
+            h1 = hasher.new_hasher_for_hash_type(f)
+            mid = n // 2
+            h1.update(data[:mid])
+            h2 = hasher.new_hasher_for_hash_type(f)
+            h2.update(b"interloper")
+            other = hasher.hash_data(b"one-shot in between", f)
+            require(other == refhash.digest(f, b"one-shot in between"), "hash_data", "%s one-shot call between updates: %r" % (f, other))
+            h1.update(data[mid:])
+            got1, got2 = h1.string_digest(), h2.string_digest()
+            require(got1 == r, "streaming_interleaved", lambda: "%s: a hasher fed %d bytes around other hashers of the same format gives %r, reference %r" % (f, n, got1, r))
+            require(got2 == refhash.digest(f, b"interloper"), "streaming_interleaved", lambda: "%s: second hasher %r" % (f, got2))
         got = hasher.multiple_format_hash_data(data, list(formats))
         require(got == ref, "multi_data", lambda: "formats %s len %d: %r != %r" % (formats, n, got, ref))
         got = hasher.multiple_format_hash_file(path, list(formats))
